@@ -123,6 +123,18 @@ package attribute
 //@   loop#1 invariant forall k in first+1 .. n : re(setAt(l.equivalent, k))
 //@   loop#1 decreases first + 1
 
+// Iterator.ToSlice: the WHOLE contents of the set the iterator walks, in order, wherever the iterator stood before the call (it is
+// rewound first)
+//@ func (i *Iterator) ToSlice() (s []KeyValue)
+//@   prop C05
+//@   overflow assumed
+//@   unchecked frame the iterator is rewound and advanced; a fresh slice is filled
+//@   requires i != nil && i.storage != nil && i.idx >= -1 && i.idx <= setLen(i.storage.equivalent)
+//@   ensures len(s) == setLen(i.storage.equivalent)
+//@   ensures forall j in 0 .. len(s) : s[j] == setAt(i.storage.equivalent, j)
+//@   loop#1 invariant i.storage == old(i.storage) && i.idx == len(slice) - 1 && -1 <= i.idx && i.idx < l && l == setLen(i.storage.equivalent) && cap(slice) == l
+//@   loop#1 invariant forall j in 0 .. len(slice) : slice[j] == setAt(i.storage.equivalent, j)
+
 // ---- iterators: one merge step of two sorted sets, the first iterator wins on equal keys (C05, used by C19)
 //@ func (l *Set) Iter() (it Iterator)
 //@   prop -
